@@ -14,6 +14,8 @@ TEMPLATES = {
         ("two_shared", ["ECU-SHARED-DATA", "ECU-SHARED-DATA", "BASE-VARIANT", "ECU-VARIANT"], ["o"], []),
         ("two_protocols", ["PROTOCOL", "PROTOCOL", "BASE-VARIANT", "ECU-VARIANT"], ["o"], []),
         ("two_names", ["PROTOCOL", "ECU-SHARED-DATA", "BASE-VARIANT"], ["o", "p"], []),
+        # two parents of equal priority with two names each: a conflict on one name (settled locally) next to another object
+        ("two_protocols_two_names", ["PROTOCOL", "PROTOCOL", "BASE-VARIANT"], ["o", "p"], []),
         ("comparams", ["PROTOCOL", "BASE-VARIANT", "ECU-VARIANT"], [], [["cp1", ""], ["cp1", "L1"], ["cpx", ""]]),
         ("comparams_two_protocols", ["PROTOCOL", "PROTOCOL", "BASE-VARIANT"], [], [["cp1", ""], ["cp1", "L1"], ["cpx", "L1"]]),
         # PARENT-REFs written in descending layer order (functional group before protocol; second protocol before first)
@@ -34,6 +36,7 @@ TEMPLATES = {
         ("shared_chain", ["ECU-SHARED-DATA", "PROTOCOL", "FUNCTIONAL-GROUP", "BASE-VARIANT"], ["o"], []),
         ("five", ["ECU-SHARED-DATA", "PROTOCOL", "FUNCTIONAL-GROUP", "BASE-VARIANT", "ECU-VARIANT"], ["o"], []),
         ("two_names", ["PROTOCOL", "ECU-SHARED-DATA", "BASE-VARIANT", "ECU-VARIANT"], ["o", "p"], []),
+        ("two_protocols_two_names", ["PROTOCOL", "PROTOCOL", "BASE-VARIANT"], ["o", "p"], []),
         ("comparams", ["PROTOCOL", "FUNCTIONAL-GROUP", "BASE-VARIANT", "ECU-VARIANT"], [],
          [["cp1", ""], ["cp1", "L1"], ["cpx", ""], ["cpx", "L1"]]),
         ("comparams_two_protocols", ["PROTOCOL", "PROTOCOL", "BASE-VARIANT", "ECU-VARIANT"], [],
